@@ -66,7 +66,7 @@ Entities(s) ==
      [] s.kind = "class" -> { <<"meth", FALSE>>, <<"attr", FALSE>>, <<"pmeth", TRUE>>, <<"iattr", FALSE>>,
                              <<"attr2", FALSE>>, <<"iattr2", FALSE>>, <<"ometh", FALSE>>, <<"prop", FALSE>> }     \* attr2 / iattr2: second target of a tuple assignment whose first target is already defined
      [] s.kind = "classinner" -> { <<"meth", FALSE>>, <<"inner", FALSE>>, <<"imeth", FALSE>>, <<"pinner", TRUE>> }
-     [] s.kind = "enum" -> { <<"AA", FALSE>>, <<"BB", FALSE>> })
+     [] s.kind = "enum" -> { <<"AA", FALSE>>, <<"BB", FALSE>>, <<"PM", TRUE>> })      \* PM: a member with a private name (_pm = 3)
 Roles(s) == { e[1] : e \in Entities(s) }
 Public(s, role) == PublicTop(s) /\ \A e \in Entities(s) : e[1] = role => ~e[2]
 PublicRoles(s) == { r \in Roles(s) : Public(s, r) }
